@@ -477,7 +477,16 @@ func run06(c *core.Ctx) {
 				path = append(path, p)
 			}
 			mk := pel{kind: core.Pick(r, []string{"session", "session", "session", "ctx", "debug", "begin", "newdb", "skiphooks", "newdb+skiphooks", "newdb+ctx", "session+ctx", "newdb+dryprep", "ctxsame", "ctxsame"})}
+			before := db.Error
 			db, _, _ = applyPel(mk, db, root)
+			// a chain that gorm has refused (Select(123) ...) stays refused whatever is derived from it, except through
+			// Session{NewDB}, which starts over
+			if before != nil && !strings.HasPrefix(mk.kind, "newdb") && mk.kind != "begin" && db.Error == nil {
+				c.Violation("error-lost-on-derive", map[string]interface{}{"path": "a chain carrying the error " + before.Error() + ", then " + mk.kind, "note": "the handle derived from a refused chain carries no error any more: finishers on it run"})
+			}
+			if before != nil {
+				c.Inc("handles_derived_from_refused_chains")
+			}
 			if mk.kind == "begin" {
 				txs = append(txs, db)
 			}
